@@ -434,6 +434,16 @@ C15Event(T, i) ==
            /\ LET f == SelectSeq(e.ind, LAMBDA x : x.k = "finished")  p == SelectSeq(e.out, LAMBDA x : x.t = "FIN") IN
               ~(f[Len(f)].cond = p[Len(p)].cond /\ f[Len(f)].deliv = p[Len(p)].deliv /\ f[Len(f)].fstat = p[Len(p)].fstat)
         THEN B("transaction-finished-indication-differs-from-finished-pdu") ELSE {})
+  \* ... and at the sender, the Finished PDU received for it (the last one accepted before the indication)
+  \cup (IF S /\ IndCount(e, "finished") > 0
+           /\ LET f == SelectSeq(e.ind, LAMBDA x : x.k = "finished")
+                  got == { j \in 1..i : /\ T.ev[j].side = "S" /\ T.ev[j].call = "fsm" /\ T.ev[j].arg.t = "FIN" /\ T.ev[j].exc = "none"
+                                        /\ T.ev[j].arg.h.qv = f[Len(f)].tid.seq /\ T.ev[j].pre.state = "BUSY"
+                                        \* (the Finished PDU the sender acted on: the call that answered it with the ACK)
+                                        /\ \E m \in DOMAIN T.ev[j].out : T.ev[j].out[m].t = "ACK" } IN
+              got # {} /\ LET p == T.ev[LastIdx(got)].arg IN
+                          ~(f[Len(f)].cond = p.cond /\ f[Len(f)].deliv = p.deliv /\ f[Len(f)].fstat = p.fstat)
+        THEN B("sender-transaction-finished-indication-differs-from-the-finished-pdu-received") ELSE {})
   \* every indication carries the transaction id of the PDUs
   \cup (IF \E j \in DOMAIN e.ind : ~e.ind[j].tid.set \/ e.ind[j].tid.src # T.cfg.sId
                                    \/ (e.ind[j].tid.seq # e.pre.tseq /\ e.ind[j].tid.seq # e.post.tseq
@@ -479,6 +489,11 @@ C12(T) ==
                                       /\ ((T.cfg.chk = "MODULAR" /\ sent # Len(f))
                                           \/ later[1].p.chk = FileChecksum(IF T.ev[i].pre.fileSize < 0 \/ PutBefore(T, i).mdOnly THEN "NULL" ELSE T.cfg.chk, f, sent)))
                 THEN B("next-pdu-after-cancel-is-not-the-eof-cancel-for-the-bytes-sent", i) ELSE {})
+               \* every further copy of that EOF (re-sent by the positive ACK procedure) is the same EOF
+               \cup (IF later # <<>> /\ later[1].p.t = "EOF"
+                        /\ \E k \in DOMAIN later : /\ later[k].p.t = "EOF" /\ later[k].p.cond = "CANCEL_REQUEST_RECEIVED"
+                                                    /\ (later[k].p.size # later[1].p.size \/ later[k].p.chk # later[1].p.chk)
+                     THEN B("re-sent-eof-cancel-differs-from-the-first", i) ELSE {})
                \cup (IF later = <<>> /\ e.pre.step \notin {"NOTICE_OF_COMPLETION"} /\ \E j \in OfSide(T, "S") : j > i /\ T.ev[j].call = "fsm" /\ T.ev[j].exc = "none"
                      THEN B("no-eof-cancel-emitted-after-cancel", i) ELSE {})
                \cup (IF \E k \in DOMAIN later : later[k].p.t = "FD" /\ later[k].p.off + Len(later[k].p.data) > sent
@@ -569,11 +584,19 @@ C13Walk(T, i) ==   \* i: the event that accepted an EOF (no error) in unacknowle
 C13(T) ==
   IF ~Has(T, "C13") THEN {} ELSE
   \* receiver: EOF overtaking data does not finish the transaction at once ...
-  UNION { (IF \E k \in DOMAIN T.ev[i].ind : T.ev[i].ind[k].k = "finished" THEN {V("C13", "finished-at-the-eof-although-data-is-outstanding", i, Kf(T), "", "")} ELSE {})
-          \cup C13Walk(T, i)
+  UNION { C13Walk(T, i)
           : i \in { i \in OfSide(T, "D") : /\ T.ev[i].call = "fsm" /\ T.ev[i].arg.t = "EOF" /\ T.ev[i].arg.cond = "NO_ERROR" /\ T.ev[i].arg.h.mode = "UNACK"
                                            /\ T.ev[i].exc = "none" /\ T.ev[i].pre.step = "RECEIVING_FILE_DATA"
                                            /\ T.ev[i].post.step = "RECV_FILE_DATA_WITH_CHECK_LIMIT_HANDLING" } }
+  \* (judged independently of the step the handler chose: the file in the sandbox does not match the EOF checksum, the
+  \* checksum failure is ignored by the table and no other fault was declared - then the transaction stays open)
+  \cup { V("C13", "finished-at-the-eof-although-data-is-outstanding", i, Kf(T), "", "") :
+         i \in { i \in OfSide(T, "D") : /\ T.ev[i].call = "fsm" /\ T.ev[i].arg.t = "EOF" /\ T.ev[i].arg.cond = "NO_ERROR" /\ T.ev[i].arg.h.mode = "UNACK"
+                                          /\ T.ev[i].exc = "none" /\ T.ev[i].pre.step = "RECEIVING_FILE_DATA"
+                                          /\ TxnChk(T, i) \in {"CRC32", "CRC32C"} /\ T.cfg.fhD["FILE_CHECKSUM_FAILURE"] = "ignore" /\ T.cfg.chkLim > 0
+                                          /\ ~DstFileOk(T, i, T.ev[i].fs, T.ev[i].arg.chk, T.ev[i].arg.size)
+                                          /\ ~(\E k \in DOMAIN T.ev[i].flt : T.ev[i].flt[k].cond # "FILE_CHECKSUM_FAILURE")
+                                          /\ (T.ev[i].post.state = "IDLE" \/ \E m \in DOMAIN T.ev[i].ind : T.ev[i].ind[m].k = "finished") } }
   \* ... and an EOF for an incomplete file must not complete the transfer successfully
   \cup { V("C13", "incomplete-file-reported-successful-at-the-eof", i, Kf(T), "", "") :
          i \in { i \in OfSide(T, "D") : /\ T.ev[i].call = "fsm" /\ T.ev[i].arg.t = "EOF" /\ T.ev[i].arg.cond = "NO_ERROR" /\ T.ev[i].arg.h.mode = "UNACK"
